@@ -357,6 +357,49 @@ c37!(c37_t_cap3_n3_touch, 3, 3, 2);
 #[cfg(feature = "thorough")]
 c37!(c37_t_cap3_n2_remove, 2, 3, 1);
 
+/// From an EMPTY bucket created by the real `KBucket::new(KBucketConfig)` (capacity and
+/// pending timeout symbolic resp. configured through the real setters): fill it with
+/// disconnected entries, then insert a connected one: it must become pending with a
+/// deadline of exactly now + the CONFIGURED timeout, must not be applied one nanosecond
+/// before that deadline and must be applied at the deadline, evicting the least-recently
+/// disconnected entry.
+#[kani::proof]
+#[kani::unwind(34)]
+fn c37_q_new_bucket_pending_deadline() {
+    let local: L = [0; 4];
+    let now: (u64, u32) = (kani::any(), kani::any());
+    kani::assume(now.0 >= 1 << 10 && now.0 < 1 << 40 && now.1 < 1_000_000_000);
+    verif::set_now_parts(now.0, now.1);
+    let (to_secs, to_nanos): (u64, u32) = (kani::any(), kani::any());
+    kani::assume(to_secs < 1 << 20 && to_nanos < 1_000_000_000);
+    kani::assume(to_secs > 0 || to_nanos > 0);
+    // capacity 1 keeps the history to two real inserts (a four-insert history at capacity 2
+    // needed > 26 GB in CBMC)
+    let mut b = Bucket::new(1, Duration::new(to_secs, to_nanos));
+    assert!(b.capacity() == 1 && b.len() == 0 && b.pending().is_none(), "new bucket: configured capacity, empty");
+    assert!(b.insert_or_update(&kd(local, 8), false) == OpResult::Inserted);
+    assert!(b.insert_or_update(&kd(local, 11), true) == OpResult::Pending);
+    let mut s = now.0 + to_secs;
+    let mut ns = now.1 + to_nanos;
+    if ns >= 1_000_000_000 {
+        ns -= 1_000_000_000;
+        s += 1;
+    }
+    let p = b.pending().unwrap();
+    assert!(verif::instant_parts(p.2) == (s, ns), "pending deadline = insertion time + the configured pending timeout");
+    // one nanosecond before the deadline: not applied
+    let (bs, bn) = if ns == 0 { (s - 1, 999_999_999) } else { (s, ns - 1) };
+    verif::set_now_parts(bs, bn);
+    assert!(b.apply_pending().is_none() && b.pending().is_some(), "not applied before its timeout");
+    verif::set_now_parts(s, ns);
+    let applied = b.apply_pending().map(|(i, e)| (dist8(local, &i), e.map(|e| dist8(local, &e))));
+    assert!(applied == Some((11, Some(8))), "applied at the deadline, evicting the least-recently disconnected entry");
+    assert!(b.len() == 1 && dist8(local, &b.key(0).unwrap()) == 11);
+    assert!(b.connected(0) == Some(true));
+    kani::cover!(to_secs == 600, "witness: non-default timeout");
+    std::mem::forget(b);
+}
+
 #[cfg(verif_replay)]
 include!(env!("VERIF_REPLAY_FILE"));
 
